@@ -38,8 +38,9 @@ pub fn builtin_get(
 		};
 		default.evaluate()
 	};
-	// Happy path for invisible fields
-	if !inc_hidden && !o.has_field_ex(f.clone(), false) {
+	// As in the std.jsonnet definition, the object is not touched (no field read, no assertions)
+	// when the field does not exist or is not visible enough
+	if !o.has_field_ex(f.clone(), inc_hidden) {
 		return do_default();
 	}
 	let Some(v) = o.get(f)? else {
